@@ -32,7 +32,7 @@ RULE = (
 ASSUMPTIONS = [
     "exactly identified plans only (the property's quantifier); the impact matrix is computed by the harness from simulate() responses (judged by C01)",
     "unanticipated swaps pair a variable and a shock at the same date; anticipated targets/instruments may be at different dates",
-    "with anticipated swaps, background unanticipated shocks are dated in the first period only (later surprises change the information set under which the instruments were anticipated)",
+    "with anticipated swaps, background unanticipated shocks are dated in the first period or after the last target (a surprise between the instrument and a target changes the information set under which the instrument was anticipated; the truth is then no fixed point of the plan)",
     "stacked_time is run in levels only (deviation is a first-order concept)",
     "anchored nonlinear models (stacked_time only): the truth comes from stacked_time; recovered instrument values and paths are not compared (the instruments hitting a target need not be unique), only exogenized points, untouched shocks and the equations on the planned path",
     "input values at endogenized shock cells are drawn (zero, a stale non-zero value, or the truth itself): the result must not depend on them; tolerance 1e-8 relative (first_order), 1e-6 (stacked_time)",
@@ -69,6 +69,7 @@ def _case(draw):
             "background": [list(b) for b in background], "init": [list(i) for i in init],
             "method": method,
             "deviation": draw(st.booleans()),
+            "split_frames": draw(st.sampled_from([False, False, True])),
             "api": draw(st.sampled_from(["swap", "separate"]))}
 
 
@@ -77,6 +78,10 @@ def _classify(case):
     labels = [case["mode"], case["method"], f"pairs_{len(pairs)}", "deviation" if case["deviation"] else "levels"]
     if lm.nl_terms(case["spec"]):
         labels.append("nonlinear_model")
+    if case.get("split_frames") and case["method"] == "first_order":
+        labels.append("force_split_frames")
+    if case["mode"] == "anticipated" and any((not b[3]) and b[1] > max(p[1] for p in pairs) for b in case["background"]):
+        labels.append("surprise_after_last_target")
     dates = {p[1] for p in pairs}
     nontrivial = (len(pairs) >= 2 and len(dates) >= 2) or (case["mode"] == "anticipated" and any(p[1] > 0 or p[3] > 0 for p in pairs))
     if case["mode"] == "anticipated" and any(p[1] != p[3] for p in pairs):
@@ -93,6 +98,19 @@ def _in_domain(spec):
     if sum(1 for m in mags if m > 1) != lm.num_forwards(spec):
         return False
     return lm.rank_condition(spec) <= 1e6
+
+
+def _collapsed(spec, paths, dev, variant=None):
+    """Collapsed pseudo-solutions of multiplicative equations (see C06): the stacked solver accepts x -> 0 because its
+    residual test is absolute; such paths are counted, not compared."""
+    xs_, _ = lm.steady(spec, variant)
+    if xs_ is None:
+        return True
+    for j, nm_ in enumerate(spec["names"]):
+        a_ = paths.arr(nm_)
+        if not np.all(np.isfinite(a_)) or np.any(a_ <= 0) or float(np.max(np.abs(np.log(a_) - (0.0 if dev else xs_[j])))) > 12.0:
+            return True
+    return False
 
 
 def _check(case):
@@ -128,13 +146,16 @@ def _check(case):
     span = start >> (start + N - 1)
     pre = "" if mode == "unanticipated" else "ant_"
 
+    last_target = max(p[1] for p in pairs)
+
     def base_db():
         db = sd.steady_db(m, spec, start, -Lmax, N + Fmax + 2, dev)
         sd.apply_init(db, spec, start, case["init"], dev)
         for i, tau, v, ant in case["background"]:
-            if mode == "anticipated" and not ant and tau > 0:
-                # a later surprise changes what agents anticipated when the instrument was set: the truth is then
-                # not a fixed point of the anticipated plan, so the round trip is not implied by the property
+            if mode == "anticipated" and not ant and 0 < tau <= last_target:
+                # a surprise before the last target changes what agents anticipated when the instrument was set: the
+                # truth is then not a fixed point of the anticipated plan, so the round trip is not implied by the
+                # property; a surprise after every target leaves the targets untouched and is kept (second frame)
                 continue
             if shn[i] and (i, tau) not in seen_i:
                 db[("ant_" if ant else "") + shn[i]][start + tau] = v
@@ -210,6 +231,8 @@ def _check(case):
                 api("plan:endogenize_anticipated", plan.endogenize_anticipated, start + ts, "ant_" + shn[shock])
     if method == "stacked_time":
         sim_kw["solver_settings"] = SOLVER
+    elif case.get("split_frames"):
+        sim_kw["force_split_frames"] = True       # non-default: one frame per surprise (stacked_time always splits)
     try:
         PP = m.simulate(dbP, span, plan=plan, **sim_kw)
     except Exception as exc:  # noqa: BLE001
@@ -221,13 +244,8 @@ def _check(case):
     rtol = 1e-8 if method == "first_order" else 1e-6
     pT = sd.Paths(PT, spec, start, 0, N - 1)
     pP = sd.Paths(PP, spec, start, 0, N - 1)
-    if method == "stacked_time" and log:
-        # collapsed pseudo-solutions of multiplicative equations (see C06): counted, not compared
-        xs_, _ = lm.steady(spec)
-        for j, nm_ in enumerate(spec["names"]):
-            a_ = pP.arr(nm_)
-            if not np.all(np.isfinite(a_)) or np.any(a_ <= 0) or float(np.max(np.abs(np.log(a_) - (0.0 if dev else xs_[j])))) > 12.0:
-                return {"labels": ["collapsed_pseudo_solution"], "nontrivial": False}
+    if method == "stacked_time" and log and _collapsed(spec, pP, dev):
+        return {"labels": ["collapsed_pseudo_solution"], "nontrivial": False}
     scale = 1.0 + max(float(np.max(np.abs(np.log(pT.arr(nm)) if log else pT.arr(nm)))) for nm in spec["names"])
     # 1. exogenized points are hit
     for (var, tt, _, _, _) in pairs:
@@ -359,6 +377,10 @@ def _check_variants(case):
         col.fail(f"variants:simulate_with_plan:raises:{type(exc).__name__}", f"{exc}\n{lm.source(spec)}")
         col.done()
     rtol = 1e-8 if method == "first_order" else 1e-6
+    if method == "stacked_time" and spec["log"]:
+        for v in range(2):
+            if _collapsed(spec, sd.Paths(PP, spec, start, 0, N - 1, variant=v), False, variant=v):
+                return {"labels": ["collapsed_pseudo_solution"], "nontrivial": False}
     for v in range(2):
         pT = sd.Paths(PT, spec, start, 0, N - 1, variant=v)
         pP = sd.Paths(PP, spec, start, 0, N - 1, variant=v)
